@@ -223,12 +223,12 @@ def check_C03(chk):
         rng = random.Random(chk.seed + 3)
         cases, nid = [], itertools.count(1)
         for _ in range(400 if thorough else 60):
-            how = rng.choice(["thread", "thread", "fork", "carrier"])
+            how = rng.choice(["thread", "thread", "fork", "carrier", "spawn"])
             cases.append({"id": next(nid), "how": how, "mode": rng.choice(["recv", "timed", "poll"]), "delay_us": rng.choice([0, 50, 300, 2000, 9000]),
-                          "nmsg": rng.choice([0, 0, 1, 5]), "clones": rng.randint(1, 4) if how == "thread" else 1})
+                          "nmsg": rng.choice([0, 0, 1, 5]), "clones": rng.randint(1, 4) if how in ("thread", "spawn") else 1})
         lines = ["id=%d how=%s mode=%s delay_us=%d nmsg=%d clones=%d" % (c["id"], c["how"], c["mode"], c["delay_us"], c["nmsg"], c["clones"]) for c in cases]
         for fl in ("default", "inprocess"):
-            sel = [(l, c) for l, c in zip(lines, cases) if not (fl == "inprocess" and c["how"] == "fork")]
+            sel = [(l, c) for l, c in zip(lines, cases) if not (fl == "inprocess" and c["how"] in ("fork", "spawn"))]
             chunks = [sel[i::6] for i in range(6)]
 
             def run(ch, fl=fl):
@@ -249,6 +249,9 @@ def check_C03(chk):
                     why = "the receive ended with %s instead of 'disconnected'" % r["out"]
                 elif r["got"] != list(range(c["nmsg"])):
                     why = "'disconnected' was reported before all %d pending messages had been delivered (got %s)" % (c["nmsg"], r["got"])
+                elif c["how"] == "spawn" and r["us"] > 2500000:
+                    why = ("the last sender handle (one that had arrived inside a message) was dropped, but 'disconnected' was only reported after %d us: an unrelated child "
+                           "process started meanwhile kept the channel connected" % r["us"])
                 elif c["how"] != "carrier" and r["us"] + 200 < c["delay_us"]:
                     why = "'disconnected' after %d us although a sender handle existed for %d us" % (r["us"], c["delay_us"])
                 if why:
@@ -420,6 +423,29 @@ def check_C04(chk):
         it = bad[0]
         chk.unproved("correspondence CodecCheck.check_dec: decoded value differs from Codec.decode_msg on %d of %d values" % (len(bad), len(todo)),
                      {"type": it["case"]["ty"], "bytes": it["case"]["bytes"].hex(), "atts": it["case"]["atts"], "observed": it["rec"]["out"]})
+    # a receiver that its first owner has polled (try_recv: nothing there) before it travels on: the new owner must get the backlog and
+    # everything sent later, with a blocking, timed or polling receive, and then the disconnection
+    prng = random.Random(chk.seed + 9)
+    pcases = [{"id": i + 1, "mode": ["recv", "timed", "poll"][i % 3], "delay_us": prng.choice([300, 3000, 20000]), "nmsg": prng.choice([0, 0, 2]), "clones": prng.randint(1, 3)}
+              for i in range(60 if thorough else 12)]
+    plines = ["id=%d how=polled mode=%s delay_us=%d nmsg=%d clones=%d" % (c["id"], c["mode"], c["delay_us"], c["nmsg"], c["clones"]) for c in pcases]
+    for fl in ("default", "inprocess"):
+        precs, _, prc, perr = C.run_harness(bins[fl], "wake", plines, shim=False, timeout=300)
+        pby = {r["id"]: r for r in precs if r.get("kind") == "wake"}
+        for l, c in zip(plines, pcases):
+            r = pby.get(c["id"])
+            why = None
+            if r is None:
+                why = "no record (process died): %s" % perr[-200:]
+            elif r["out"] == "Hang":
+                why = "the transferred receiver's new owner waited for ever (watchdog 8 s)"
+            elif r["got"] != list(range(c["nmsg"] + c["clones"])):
+                why = "the transferred receiver yielded %s instead of the %d pending and %d later messages in order (then: %s)" % (r["got"], c["nmsg"], c["clones"], r["out"])
+            elif r["out"] != "Disconnected":
+                why = "after its messages the transferred receiver reported %s instead of 'disconnected'" % r["out"]
+            if why:
+                chk.failing_input("a receiver polled by its first owner and then sent inside a message: " + why, {"build": fl, "scenario": l, "observed": r}, key="polled:%s:%s" % (fl, l))
+        chk.coverage.setdefault("polled_then_transferred_receivers", {})[fl] = len(pby)
     # values whose serialisation itself sends (nested sends with their own endpoints): every level's endpoints must arrive
     # connected to what was embedded at that level (script driver shared with C14; successful programs only matter here)
     from . import props_codec as PC
